@@ -268,6 +268,9 @@ def ob_fmm_boundary(op, dk, tk, thorough):
     operator to 1e-11, for space options (whole grid, segments, support elements, boundary dofs, swapped normals) and a second test grid."""
     worst = 0.0
     combos = [(a, b, False) for a in range(len(VARIANTS)) for b in ((a,) if not thorough else range(len(VARIANTS)))] + [(0, 0, True), (1, 0, True)]
+    if not thorough:
+        # domain and dual space on the same grid with DIFFERENT orientation options (swapped normals on one side only)
+        combos += [(0, 4, False), (4, 1, False)]
     n = 0
     for a, b, two in combos:
         dkw, tkw = VARIANTS[a], VARIANTS[b]
